@@ -2,6 +2,9 @@
 # run every claimed check (quick) on /repo, validate evidence against the schema, require discharged == obligations
 cd /verif
 tier=${1:-quick}
+# the contract lock (W11 fallback data) must describe the current contract store
+cp specs/contracts.lock.json work/lock.before 2>/dev/null
+python3 tools/weave.py --repo /repo --out work/woven --write-lock >/dev/null && { cmp -s specs/contracts.lock.json work/lock.before && echo "lock: up to date" || echo "lock: REGENERATED (commit specs/contracts.lock.json)"; }
 for p in $(python3 -c "import json; print(' '.join(c['property_id'] for c in json.load(open('MANIFEST.json'))['checks']))"); do
   out=$(./check $p $tier 2>&1); rc=$?
   v=$(python3-vt - <<PY
